@@ -286,10 +286,6 @@ class Sampler:
                 raise ValueError(msg) from e
             norm_p = [p / total_p for p in pdist.values()]
             samples = rng.choice(vals, p=norm_p, size=N)
-            self.__probability_distribution = {
-                k: v / total_p
-                for k, v in self.__probability_distribution.items()
-            }
         filtered_samples = []
         # Get heralds and pre-calculate items
         heralds = self.circuit.heralds["output"]
